@@ -8,7 +8,10 @@ MUTANTS = [
     ('drop-previous-results', "            mp_results = mp_results + previous_run_data\n", "            mp_results = mp_results\n"),
     ('journal-always-complete', "    return ('------Inputs Below------\\n' in lines) and ('------------\\n' in lines)", "    return True"),
     ('no-paren-strip', "for bracket in ('[', ']', '(', ')'):", "for bracket in ('[', ']'):"),
-    ('marker-before-result', "            np.savez(os.path.join(this_run_dir, f'mp_results.npz'), **result)\n\n            # Save something", "            # Save something"),
+    ('marker-before-result',
+     "            np.savez(os.path.join(this_run_dir, f'mp_results.npz'), **result)\n\n            # Save something to disk to mark that this was completed successfully\n            success_text = f'  Run: {this_run_num} completed successfully. ' \\\n                           f'Taking {time.time() - run_time_init:0.2f} seconds.\\n'\n            with open(os.path.join(this_run_dir, 'mp_success.log'), 'w') as success_file:\n                success_file.write(success_text)\n",
+     "            success_text = f'  Run: {this_run_num} completed successfully. ' \\\n                           f'Taking {time.time() - run_time_init:0.2f} seconds.\\n'\n            with open(os.path.join(this_run_dir, 'mp_success.log'), 'w') as success_file:\n                success_file.write(success_text)\n            np.savez(os.path.join(this_run_dir, f'mp_results.npz'), **result)\n"),
+    ('result-file-never-written', "            np.savez(os.path.join(this_run_dir, f'mp_results.npz'), **result)\n\n            # Save something", "            # Save something"),
     ('restart-uses-call-inputs', "                    input_data_to_use.append(input_tuple)\n", "                    input_data_to_use.append(input_tuple)\n        input_data_to_use = [t._replace(must_include=[]) for t in input_data_to_use]\n"),
     ('previous-result-of-wrong-case', "                previous_run_data.append((run_num, run_indicies, case_result))", "                previous_run_data.append((run_num, run_indicies, np.load(os.path.join(dir_to_use, f'index_{skipped_indicies[cases_to_skip[0]]}_run_{cases_to_skip[0]}', 'mp_results.npz'))))"),
     ('marker-written-for-failed-run', "        if not failed_run:\n            # Save key data", "        if failed_run:\n            with open(os.path.join(this_run_dir, 'mp_success.log'), 'w') as success_file:\n                success_file.write('x')\n        if not failed_run:\n            # Save key data"),
